@@ -30,6 +30,7 @@ type Config struct {
 	Workers         int
 	MaxPaths        int
 	LockMonitor     bool // Eraser-style lock discipline monitor
+	FullSchemaLib   bool // initialise and interpret the schema library's packages too (concrete bodies only)
 	GlobalMonitor   bool // report stores to package-level state
 	LogQueries      string // file to append standalone assertion queries to
 	Verbose         bool
